@@ -247,6 +247,37 @@ def check_pair(acc: core.Acc, a: tuple, b: tuple) -> None:
     acc.nontrivial += 1
 
 
+def check_self_alias(acc: core.Acc, a: tuple) -> None:
+    """The same object on both sides of a product: M @ M, M @= M, A @ A, A @= A must equal the product of two equal rotations."""
+    case = {'self_alias': list(a)}
+    ra = ref_matrix(*a)
+    prod = mat_prod(ra, ra)
+    for name, mk in ROT_TYPES.items():
+        acc.evaluations += 1
+        A = mk(*a)
+        snap = snapshot(A)
+        try:
+            res = A @ A
+        except Exception as exc:  # noqa: BLE001
+            acc.fail('operator_raises', case, f'{name} @ itself raised {type(exc).__name__}: {exc}', form=f'{name}@self')
+            continue
+        h = math.hypot(prod[0][0], prod[0][1])
+        tol = 1e-9 if (h > 0.001 or not isinstance(res, (Angle, FrozenAngle))) else 2 * h + 1e-9
+        if mdiff(as_rows(res), prod) > tol:
+            acc.fail('composition_wrong', case, f'{name}{a} @ (the same object) differs from the reference square by {mdiff(as_rows(res), prod):g}', form=f'{name}@self')
+        if snapshot(A) != snap:
+            acc.fail('operand_mutated', case, f'{name} @ itself changed the operand', form=f'{name}@self')
+        B = mk(*a)
+        alias = B
+        B @= B
+        if mdiff(as_rows(B), prod) > tol:
+            acc.fail('composition_wrong', case, f'{name}{a} @= (the same object) gives a matrix differing from the reference square by {mdiff(as_rows(B), prod):g}',
+                     form=f'{name}@=self')
+        if name.startswith('Frozen') and snapshot(alias) != snap:
+            acc.fail('frozen_inplace', case, f'{name} @= itself changed the frozen source', form=f'{name}@=self')
+    acc.nontrivial += 1
+
+
 def lattice_g1():
     steps = [15.0 * i for i in range(24)]
     return itertools.product(steps, steps, steps)
@@ -274,6 +305,7 @@ def shard(spec) -> core.Acc:
     elif kind == 'pairs':
         a_list, b_list = spec[1], spec[2]
         for a in a_list:
+            check_self_alias(acc, a)
             for b in b_list:
                 check_pair(acc, a, b)
         acc.sample({'a': list(a_list[0]), 'b': list(b_list[0])}, 1)
@@ -306,7 +338,9 @@ def run(ctx: core.Ctx) -> None:
 
 def replay(case: dict) -> list:
     acc = core.Acc()
-    if 'angle' in case:
+    if 'self_alias' in case:
+        check_self_alias(acc, tuple(case['self_alias']))
+    elif 'angle' in case:
         check_angle(acc, *case['angle'], True)
     else:
         check_pair(acc, tuple(case['a']), tuple(case['b']))
